@@ -1,7 +1,7 @@
 (* Entry points of the executable model, by name.  Used both by the extracted
    OCaml driver and by vm_compute in generated cases files. *)
 From Coq Require Import ZArith QArith List String Bool.
-From SKC Require Import Model.Val Base.QRank Model.Dominance.
+From SKC Require Import Model.Val Base.QBool Base.QList Base.QRank Model.Dominance Model.Agg Model.Electre Model.Result.
 Import ListNotations.
 Local Open Scope string_scope.
 
@@ -33,7 +33,85 @@ Definition run_dominance (arg : list bool * list (list Q)) : val :=
 Definition run_rank (arg : bool * list Q) : val :=
   let (rev, xs) := arg in eL eN (rank_values rev xs).
 
+(* ---- aggregation kernels (C03-C06) ----------------------------------- *)
+Definition eRes {A} (e : A -> val) (r : result A) : val :=
+  match r with Ok a => e a | Err c => VE c end.
+Definition dDM := dP3 (dL dB) (dL dQ) dMatrix.
+
+Definition run_wsm (a : list bool * list Q * list (list Q)) : val :=
+  let '(objs, w, rows) := a in
+  eRes (fun p => VL [eL eN (fst p); eL eQ (snd p)]) (wsm objs w rows).
+Definition run_ratio (a : list bool * list Q * list (list Q)) : val :=
+  let '(objs, w, rows) := a in
+  let p := ratio objs w rows in VL [eL eN (fst p); eL eQ (snd p)].
+Definition run_refpoint (a : list bool * list Q * list (list Q)) : val :=
+  let '(objs, w, rows) := a in
+  let '(r, s, rp) := refpoint objs w rows in VL [eL eN r; eL eQ s; eL eQ rp].
+Definition metric_of (z : Z) : metric :=
+  if (z =? 0)%Z then Cityblock else if (z =? 1)%Z then SqEuclidean
+  else if (z =? 2)%Z then Chebyshev else Euclidean.
+Definition run_topsis (a : Z * list bool * list Q * list (list Q)) : val :=
+  let '(mz, objs, w, rows) := a in
+  let mt := metric_of mz in
+  let c := topsis_core mt objs w rows in
+  VL [eL eQ (t_ideal c); eL eQ (t_anti c); eL eQ (t_dbetter c); eL eQ (t_dworst c);
+      match mt with
+      | Euclidean => VL []
+      | _ => eRes (fun p => VL [eL eN (fst p); eL eQ (snd p)]) (topsis_rational mt objs w rows)
+      end].
+Definition run_wpm_domain (a : list bool * list (list Q)) : val :=
+  eB (wpm_domain (fst a) (snd a)).
+Definition run_fmf (a : list bool * list Q * list (list Q)) : val :=
+  let '(objs, w, rows) := a in
+  VL [eB (fmf_domain rows); eQ (fmf_offset objs);
+      eL (fun r => eL (fun t => VL [eB (fst t); eQ (snd t)]) (fmf_terms objs w r)) rows].
+Definition run_mm_score (rm : list (list nat)) : val := eL eN (mm_score rm).
+Definition run_rank_matrix (a : list nat * list nat * list nat) : val :=
+  let '(r1, r2, r3) := a in eL (eL eN) (rank_matrix r1 r2 r3).
+
+(* ---- ELECTRE (C03, C08) ---------------------------------------------------- *)
+Definition dBT := dL (dL dB).
+Definition run_kernel (t : list (list bool)) : val := eL eB (kernel (List.length t) t).
+Definition run_electre_tables (a : list bool * list Q * list (list Q)) : val :=
+  let '(objs, w, rows) := a in
+  VL [eTable eQ (concordance objs w rows); eTable eQ (discordance objs rows);
+      eTable eB (wor_table (wor_spec_cell objs w) rows);
+      eTable eB (wor_table (wor_called_cell objs w) rows)].
+Definition run_outrank (a : Q * Q * list (list Q) * list (list Q)) : val :=
+  let '(p, q, conc, disc) := a in
+  eTable eB (outrank_of (List.length conc) p q conc disc).
+Definition run_electre2_rel
+  (a : list Q * list (list Q) * list (list Q) * list (list bool)) : val :=
+  let '(th, conc, disc, wor) := a in
+  match th with
+  | [p0; p1; p2; q0; q1] =>
+      let n := List.length conc in
+      VL [eTable eB (outrank_s_of n p0 p1 q0 q1 conc disc wor);
+          eTable eB (outrank_w_of n p2 q0 conc disc wor)]
+  | _ => VE E_DECODE
+  end.
+Definition run_electre2_rank (a : list (list bool) * list (list bool)) : val :=
+  let (s, w) := a in
+  match electre2_rank (List.length s) s w with
+  | Some (d, i, sc, r) => VL [eL eN d; eL eN i; eL eQ sc; eL eN r]
+  | None => VE E_FUEL
+  end.
+
 Definition dispatch (fn : string) (arg : val) : val :=
   if fn =? "dominance" then with_arg (dP2 (dL dB) dMatrix) run_dominance arg
   else if fn =? "rank" then with_arg (dP2 dB (dL dQ)) run_rank arg
+  else if fn =? "validate_rank" then with_arg (dL dZ) (fun vs => eB (validate_rank vs)) arg
+  else if fn =? "wsm" then with_arg dDM run_wsm arg
+  else if fn =? "ratio" then with_arg dDM run_ratio arg
+  else if fn =? "refpoint" then with_arg dDM run_refpoint arg
+  else if fn =? "topsis" then with_arg (dP4 dZ (dL dB) (dL dQ) dMatrix) run_topsis arg
+  else if fn =? "wpm_domain" then with_arg (dP2 (dL dB) dMatrix) run_wpm_domain arg
+  else if fn =? "fmf" then with_arg dDM run_fmf arg
+  else if fn =? "mm_score" then with_arg (dL (dL dN)) run_mm_score arg
+  else if fn =? "rank_matrix" then with_arg (dP3 (dL dN) (dL dN) (dL dN)) run_rank_matrix arg
+  else if fn =? "kernel" then with_arg dBT run_kernel arg
+  else if fn =? "electre_tables" then with_arg dDM run_electre_tables arg
+  else if fn =? "outrank" then with_arg (dP4 dQ dQ dMatrix dMatrix) run_outrank arg
+  else if fn =? "electre2_rel" then with_arg (dP4 (dL dQ) dMatrix dMatrix dBT) run_electre2_rel arg
+  else if fn =? "electre2_rank" then with_arg (dP2 dBT dBT) run_electre2_rank arg
   else VE E_NOFN.
